@@ -5,11 +5,26 @@ _BASE = (
   "T4 allocator axiom for atomic counters; python/Warp dialect semantics as implemented by wpv (sym.py, loops.py, hostexec.py); "
   "SMT solvers sound. The verified text is re-extracted from /repo on every run (docstrings, comments, wp.printf and decorator "
   "arguments dropped). Replay: ./check <id> --replay <file> re-generates and re-discharges the failed obligation on the current "
-  "source; counter-models of C13/C14/C15 are additionally replayed on the real API (scenarios/replay_native.py), all other "
-  "VIOLATION lines end with no-failing-input-found (DESIGN.md 12.2). "
+  "source; counter-models of C13/C14/C15 are additionally replayed on the real API (scenarios/replay_native.py) and counter-models "
+  "of function contracts over scalar / vector parameters (C20, C23, C24 ...) on the real @wp.func run by Warp "
+  "(scenarios/replay_func.py); all other VIOLATION lines end with no-failing-input-found (DESIGN.md 12.2, 12.9). "
 )
 
 CLAIMS = {
+  "C05": {
+    "text": "Two conjuncts of the statement that do not involve MuJoCo's numerics. (A) constraint._efc_contact_init (every "
+    "specialisation, the loop over a contact's rows summarised in closed form): for a live active contact, efc_address[c, k] is -1 "
+    "exactly when row base+k does not fit njmax, and otherwise is base+k -- a row below njmax whose efc.id is c -- so the rows of a "
+    "contact are the contiguous block the allocator returned; _efc_contact_update stores efc.id / efc.type at exactly the addressed "
+    "row of the contact's world. (B) for every row-building kernel launched by make_constraint, the rows a thread allocates from "
+    "nefc equal what it adds to the counter of its kind (ne / nf / nl), at most one kind per kernel, contact builders none, and the "
+    "builders are launched in the order equality, friction, limit, contact (which with the allocator axiom gives the row ordering "
+    "C24 assumes).",
+    "note": _BASE + "Agreement of the rows themselves (Jacobian, position, margin, impedance-derived mass, reference acceleration, "
+    "friction loss) with MuJoCo's is a comparison with MuJoCo's floating-point output and is NOT claimed; flex contacts and "
+    "_equality_flexstrain (outside the dialect) are not covered.",
+    "design_ref": "DESIGN.md 3 (C05)",
+  },
   "C09": {
     "text": "Non-interference by contract: for every kernel of the repository (census re-enumerated from /repo on every run, all closure "
     "specialisations; the real kernel body executed symbolically) it is proved that (ISOLATION) every access to an nworld-led Data/efc "
@@ -115,14 +130,42 @@ CLAIMS = {
     "loop counters, integer parameters, slots returned by atomic_add -- is proved to satisfy 0 <= idx < shape for the launch extents "
     "of that site, under the kernel's own guards (capacity tests such as `efcid >= njmax_in: return`, live-range tests against "
     "nacon / nefc). Array shapes and size parameters are tied to the extents of the types.py field specs, temporaries to their "
-    "allocation in the launching host function. About 6600 obligations; they hold for all sizes and capacities at once, including the "
+    "allocation in the launching host function; lower and upper bound are separate obligations. About 13000 obligations; they hold for all sizes and capacities at once, including the "
     "degenerate ones (njmax = 0, naconmax = 0, nv = 0) no fixture has.",
     "note": _BASE + "Structural part of the property only. Not claimed: subscripts whose index, loop bound or guard depends on values "
-    "stored in Model / Data (listed by kernel, formal and dimension in contracts/bounds_needs_wf.txt; they need MODEL_WF facts or "
+    "stored in Model / Data (listed by kernel, formal, dimension and side in contracts/bounds_needs_wf.txt; they need MODEL_WF facts or "
     "producer contracts), launches whose extent is not an expression over model / data sizes, kernels outside the dialect "
     "(contracts/scope_C17.txt), everything about 'never crashes' beyond array bounds and about put_model / make_data rejecting invalid "
     "configurations. make_data / put_data allocating exactly the spec shapes is assumed.",
     "design_ref": "DESIGN.md 3 (C17), 12.6",
+  },
+  "C18": {
+    "text": "The part of the statement that is a per-function contract: no pair with overlapping projections is lost by the sweep. "
+    "collision_core.sap_binary_search (while loop, quantified invariant discharged by goal-directed instantiation) returns, on a "
+    "sorted segment, the boundary r with values[lower..r) <= value < values[r..upper); collision_core.sap_range, run against that "
+    "contract (its preconditions are obligations at the call site), emits for the element at sorted position s a range that contains "
+    "every later element whose projected lower bound does not exceed the upper bound of s, and stays inside the segment; "
+    "math.upper_tri_index maps {0 <= i < j < n} injectively into [0, n(n-1)/2), so the all-pairs table and the sweep's pair-id lookup "
+    "address the same entry for the same pair.",
+    "note": _BASE + "Not claimed: the work-package decode of _sap_broadphase, the bounding-volume filters and the margins they use "
+    "(D9, explicit pair margins ignored by the SPHERE/AABB/OBB filters, was repaired in /repo: see C19), sortedness produced by warp's sort (external), and equality of the resulting contact multisets "
+    "as such.",
+    "design_ref": "DESIGN.md 3 (C18)",
+  },
+  "C19": {
+    "text": "The device side of the statement (what is done with a pair-table entry), as contracts on the real functions: "
+    "collision_core.write_contact allocates nothing for a filtered-out pair that no sensor asks for, reports a pair that is explicit "
+    "or passed the filters whenever the geoms are within margin + gap, and sets the CONSTRAINT / SENSOR type bits exactly by those "
+    "conditions; collision_core.contact_margin_gap and contact_material_params give an explicit pair the margin, gap, condim, "
+    "solref, solreffriction, solimp, adhesion and (floored) friction of the pair's own row in the world's own batch row, and an "
+    "ordinary pair the sum of the geoms' margins / gaps and the condim / friction of the higher-priority geom (maximum on equal "
+    "priority); at every place where the broadphase filter decides about a candidate pair, explicit pairs bypass it (the filters only "
+    "know the geoms' margins). Found and repaired: explicit pairs with a margin larger than the geom margins lost their contact.",
+    "note": _BASE + "NOT covered: the pair table itself (Model.nxn_pairid is built by put_model's numpy code -- contype/conaffinity, "
+    "weld bodies, parent-child, excludes -- outside the dialect the verifier translates), that the broadphase kernels copy the table "
+    "entry unchanged (closure-built filter functions), and the solref / solimp mixing weights of ordinary pairs. The filter-bypass "
+    "obligation is a source-level (AST) obligation.",
+    "design_ref": "DESIGN.md 3 (C19), 12.9",
   },
   "C20": {
     "text": "Contracts on the real closed-form contact functions, callers checked against callee contracts: math.orthogonals / "
@@ -183,6 +226,20 @@ CLAIMS = {
     "note": _BASE + "T4 for the nsolving counter; wp.capture_while semantics external. iterations < 0 outside the precondition; "
     "iterations == 0 read as 'no transition'. Tile intrinsics abstracted to row writes (enough for guards).",
     "design_ref": "DESIGN.md 3 (C25), 9.2",
+  },
+  "C11": {
+    "text": "RACE schema over every kernel of the repository except the flex collision and block-cooperative (tiled) ones "
+    "(census re-enumerated on every run, all closure specialisations, two-thread encoding of the real kernel body): a plain store by "
+    "one thread never hits a cell that a different thread of the same launch stores to, reads or updates atomically, for subscripts "
+    "that are pure index arithmetic over thread ids, loop counters, integer parameters and slots returned by atomic_add, under the "
+    "launch extents of the kernel's launch sites. Atomic-against-atomic pairs are accepted as commutative updates; blocks returned by "
+    "atomic_add to different threads are disjoint (allocator axiom, two-thread form). The sleep waking kernels are checked without "
+    "any assumption that two threads touch different sleep cycles -- and fail: the order dependence of _wake_tree is a known finding.",
+    "note": _BASE + "Race-freedom core of the property only. Not claimed: accesses through index tables (they need injectivity facts "
+    "about Model tables: this includes the level-parallel tree kernels of smooth.py), tiled kernels, flex collision kernels, the "
+    "three lane-cooperative kernels of contracts/race_needs_wf.txt, round-off of reordered float sums, and everything that would need "
+    "a whole-step argument (e.g. that listing order of contacts does not influence the solver beyond row order).",
+    "design_ref": "DESIGN.md 3 (C11), 12.8",
   },
   "C12": {
     "text": "Host-level data-flow analysis of the real orchestration code of forward() and step() (Euler, implicit, RK4; events in "
